@@ -62,7 +62,7 @@ ASSUMPTIONS = [
 ]
 TRUSTED = ['modelled, not verified: threading.local semantics (an attribute set on one thread is absent on another)',
            'the tracing monkeypatches of harness/props/c07.py']
-REQUIRED_BUCKETS = ['probe', 'pair:conv', 'pair:fine', 'pair:iter+iter', 'pair:iter+array', 'pair:array+iter', 'pair:array+array', 'pair:plain+iter',
+REQUIRED_BUCKETS = ['probe', 'pair:refs+refs', 'solo:refs-seq', 'pair:conv', 'pair:fine', 'pair:iter+iter', 'pair:iter+array', 'pair:array+iter', 'pair:array+array', 'pair:plain+iter',
                     'pair:iter+plain', 'pair:plain+array', 'pair:array+plain', 'pair:plain+plain', 'solo:fresh',
                     'solo:warm', 'freshop:load', 'freshop:evaluate', 'freshop:set_value', 'freshop:trim_graph']
 EXHAUSTIVE = False
@@ -176,9 +176,31 @@ def _wb_meta(spec):
     return wb
 
 
-_WB = {'iter': _wb_iter, 'array': _wb_array, 'plain': _wb_plain, 'meta': _wb_meta}
+_REFS_F = {'D1': '=ROUND(OFFSET(A1,0,A1),0)', 'D2': '=ABS(OFFSET(A1,0,A1))', 'D3': '=IFERROR(INDIRECT("C"&A1),-1)',
+           'D4': '=ROUND(INDEX(B1:C2,1,A1),0)', 'D5': '=ROUND(INDIRECT("B"&A1),0)', 'D6': '=LEFT(OFFSET(A1,0,A1),1)',
+           'D7': '=ISNUMBER(OFFSET(A1,0,A1))', 'D8': '=INDEX(B1:C2,A1,1)+0', 'D9': '=SUM(INDEX(B1:C2,A1,0))',
+           'D10': '=VLOOKUP(A1,OFFSET(A1,0,0,2,3),2,FALSE)', 'D11': '=MOD(OFFSET(A1,0,A1),7)',
+           'D12': '=CONCATENATE(OFFSET(A1,0,A1),"x")', 'D13': '=ISBLANK(INDIRECT("C"&A1))'}
+
+
+def _wb_refs(spec):
+    """ordinary wrapped library functions whose argument arrives as a REFERENCE produced at run time (OFFSET /
+    INDIRECT / INDEX); two such workbooks hold different values at the same addresses"""
+    import openpyxl
+    wb = openpyxl.Workbook()
+    ws = wb.active
+    ws.title = 'Sheet1'
+    k = spec.get('scale', 1)
+    ws['A1'], ws['A2'] = 1, 2
+    ws['B1'], ws['C1'], ws['B2'], ws['C2'] = 2 * k, 3 * k, 5 * k, 4 * k
+    for a, f in _REFS_F.items():
+        ws[a] = f
+    return wb
+
+
+_WB = {'refs': _wb_refs, 'iter': _wb_iter, 'array': _wb_array, 'plain': _wb_plain, 'meta': _wb_meta}
 _EVAL_ALL = {'iter': [S + 'A1', S + 'D1'], 'array': [S + 'J1', S + 'C1', S + 'E1:F3', S + 'H1'],
-             'plain': [S + 'A5', S + 'A4'], 'meta': [S + 'C1']}
+             'plain': [S + 'A5', S + 'A4'], 'meta': [S + 'C1'], 'refs': [S + a for a in _REFS_F]}
 _TMP = None
 _FILES = {}
 
@@ -211,7 +233,7 @@ def _new_compiler(spec):
 def _saved_file(spec, ext):
     """serialise the workload's model once (on a helper thread that has evaluated it), return the path"""
     global _TMP
-    base = {k: v for k, v in spec.items() if k in ('kind', 'iters', 'tol', 'a', 'c', 'k', 'vals', 'v', 'conv')}
+    base = {k: v for k, v in spec.items() if k in ('kind', 'iters', 'tol', 'a', 'c', 'k', 'vals', 'v', 'conv', 'scale')}
     base['load'] = 'excel' if _tick(spec) else ext
     key = _spec_key(base) + ext
     if key not in _FILES:
@@ -261,6 +283,12 @@ def _do_op(c, op):
         return 'ok'
     if kind == 'trim':
         c.trim_graph(op[1], op[2])
+        return 'ok'
+    if kind == 'run':        # another workbook loaded and evaluated on THIS thread, between this workload's operations
+        other = dict(op[1])
+        co = _load(other)
+        for o in other['ops']:
+            _do_op(co, o)
         return 'ok'
     if kind == 'load':       # an extra load on this thread (result discarded)
         _load(dict(op[1]))
@@ -888,6 +916,14 @@ def oracles(results):
                              f'{mine["results"]} vs {alone["results"]}')
             elif mine['ticks'] != alone['ticks']:
                 yield case, f'thread {t} ({spec["kind"]}) pass count {mine["ticks"]} differs from solo {alone["ticks"]}'
+        if case.get('like'):
+            # another workbook loaded and evaluated between this workload's operations, on the same thread
+            mine = [x for x, op in zip(res['0']['results'][1:], specs[0]['ops']) if op[0] != 'run']
+            ref = solo(case['like'], 0)['results'][1:]
+            if mine != ref:
+                diff = [(op[1], a, b) for op, a, b in zip(case['like']['ops'], mine, ref) if a != b]
+                yield case, f'results differ from the run without the other workbook in between: {diff[:4]}'
+            continue
         if len(specs) == 1:
             # a thread that has never used the library gets what a warmed-up thread gets
             sp = specs[0]
@@ -962,6 +998,12 @@ def _plain_spec(v=1, load='excel'):
     return {'kind': 'plain', 'v': v, 'load': load,
             'ops': [['eval', S + 'A5'], ['set', S + 'A1', 4], ['eval', S + 'A4'],
                     ['trim', [S + 'A1'], [S + 'A5']], ['eval', S + 'A5']]}
+
+
+def _refs_spec(scale, between=None):
+    ev = [['eval', S + a] for a in _REFS_F]
+    mid = [['run', between]] if between else []
+    return {'kind': 'refs', 'scale': scale, 'ops': ev + mid + [['set', S + 'A1', 2]] + ev}
 
 
 def _meta_spec(v):
@@ -1068,6 +1110,14 @@ def cases(tier, rng):
     for a, b in ((arf, plf), (arf, dict(ar2, fine=True)), (itf, arf)):
         yield from _pair_cases(a, b, tier, rng, light=True, jstep=1 if b is plf else 5, ks_fixed=[2],
                                bucket_='pair:fine')
+    # --- ordinary wrapped functions handed run-time references (OFFSET / INDIRECT / INDEX) in BOTH workbooks, which
+    #     hold different values at the same addresses: B loads / binds the same functions between A's evaluations
+    rf1, rf10 = _refs_spec(1), _refs_spec(10)
+    yield from _pair_cases(rf1, rf10, tier, rng, light=True, jstep=4, ks_fixed=[max(1, n_yields(rf10) // 2)],
+                           bucket_='pair:refs+refs')
+    yield {'A': _refs_spec(1, between=rf10), 'B': None, 'slices': [], 'like': rf1, 'bucket': 'solo:refs-seq'}
+    yield {'A': _refs_spec(10, between=dict(rf1, ops=rf1['ops'][:5])), 'B': None, 'slices': [], 'like': rf10,
+           'bucket': 'solo:refs-seq'}
     # --- CELL over a reference in both workloads (FUNC_META['name_space'] is module-level)
     m1, m2 = _meta_spec(10), _meta_spec(700)
     nm = n_yields(m1)
